@@ -73,7 +73,10 @@
     (`Example.noteCtr` …) satisfy all hypotheses; the caller really sleeps (Blocked) before it times out / is woken;
     the theorems apply (examples at the end).  `cvWokenExec` for the signaller.
 
-  NOT PROVED — the `_full` statements are kept as definitions, nothing is weakened silently
+  (UPDATE: the gap described in this paragraph is CLOSED in Props/C11FairFull.lean — `C11_fair_finite_wakeups`,
+  `C11_fair_termination : C11_fair_termination_full`, `C11_fair_index : C11_fair_index_full`; what follows is the
+  state of THIS file.)
+  NOT PROVED IN THIS FILE — the `_full` statements are kept as definitions, nothing is weakened silently
   The ONLY difference between `C11_fair_termination_full` / `C11_fair_index_full` and the `_partial` theorems is the
   hypothesis `FiniteStrayPosts x` (about who posts) in place of `FiniteWakeups x t` (about the caller's own P).  Missing
   is `FiniteStrayPosts x → FiniteWakeups x t` for a call that never returns: once the stray posts have stopped, every
